@@ -12,6 +12,7 @@ let rec i64_of_pos = function
   | XO p -> Int64.shift_left (i64_of_pos p) 1
   | XI p -> Int64.logor (Int64.shift_left (i64_of_pos p) 1) 1L
 let n_to_string = function N0 -> "0" | Npos p -> Printf.sprintf "%Lu" (i64_of_pos p)
+let rec n_to_int_nat = function O -> 0 | S k -> 1 + n_to_int_nat k
 let n_to_int = function N0 -> 0 | Npos p -> Int64.to_int (i64_of_pos p)
 (* decimal string (may be 2^64-1) -> N *)
 let n_of_string (s : string) : n =
@@ -80,7 +81,8 @@ let () =
            c.id <- id; c.tbl <- []; c.ors <- []; c.streams <- []; c.cur <- None; c.bad <- "";
            c.conv <- (if cv = "-" then CAny else if cv = "none" then CNone
                       else COne (nat_of_int (int_of_string (String.sub cv 1 (String.length cv - 1)))))
-       | [ "REGEX"; k; st; _n; is; ncap; pre; compl; mn; mx; suf; _names ] ->
+       | [ "REGEX"; k; st; _n; is; ncap; pre; compl; mn; mx; suf; names ] ->
+           let names = List.map (fun x -> if x = "-" || x = "" then None else Some (nat_of_int (int_of_string x))) (String.split_on_char ',' names) in
            let p = { insts = List.map parse_inst (String.split_on_char ';' is); start = nat_of_int (int_of_string st) } in
            let fx = { f_prefix = unhex pre; f_suffix = unhex suf; f_min = n_of_string mn; f_max = n_of_string mx } in
            (* the facts the implementation uses must be the ones the model computes (programs without assertions) *)
@@ -98,12 +100,20 @@ let () =
            end;
            if not (wf p) then c.bad <- "NOTWF regex " ^ k;
            if int_of_string ncap < 2 then c.bad <- "NCAP regex " ^ k;
-           c.tbl <- (int_of_string k, { r_prog = p; r_ncap = nat_of_int (int_of_string ncap); r_facts = fx }) :: c.tbl
+           c.tbl <- (int_of_string k, { r_prog = p; r_ncap = nat_of_int (int_of_string ncap); r_facts = fx; r_names = names }) :: c.tbl
        | [ "OR" ] -> c.ors <- [] :: c.ors
        | "COND" :: inv :: es ->
+           (* F:k:d  |  S:pre:d:uses:table   uses = ids joined by '.', table = entries joined by ';', entry = vals=k, vals = hex joined by '.' ('-' = empty value) *)
+           let value h = if h = "-" then [] else unhex h in
            let elems = List.filter_map (fun e -> if e = "" then None else match String.split_on_char ':' e with
-               | [k; d] -> Some { e_dir = (d = "1"); e_rx = nat_of_int (int_of_string k) }
-               | _ -> failwith "bad elem") es in
+               | [ "F"; k; d ] -> Some { e_dir = (d = "1"); e_ref = EFixed (nat_of_int (int_of_string k)) }
+               | [ "S"; pre; d; uses; table ] ->
+                   let uses = List.map (fun x -> nat_of_int (int_of_string x)) (List.filter (fun x -> x <> "") (String.split_on_char '.' uses)) in
+                   let table = List.filter_map (fun ent -> if ent = "" then None else match String.split_on_char '=' ent with
+                       | [ vs; k ] -> Some (List.map value (String.split_on_char '.' vs), nat_of_int (int_of_string k))
+                       | _ -> failwith "bad table entry") (String.split_on_char ';' table) in
+                   Some { e_dir = (d = "1"); e_ref = ESubst (nat_of_int (int_of_string pre), uses, table) }
+               | _ -> failwith ("bad elem " ^ e)) es in
            let cd = { c_inv = (inv = "1"); c_elems = elems } in
            (match c.ors with cur :: r -> c.ors <- (cur @ [cd]) :: r | [] -> c.ors <- [[cd]])
        | [ "STREAM" ] -> flush_stream (); c.cur <- Some (None, [])
@@ -124,8 +134,13 @@ let () =
            let fuel = nat_of_int ((maxlen + 1) * (maxprog + 1) * 2) in
            let ids f = String.concat "," (List.filter_map (fun x -> x) (List.mapi (fun i st -> if f st then Some (string_of_int i) else None) streams)) in
            if c.bad <> "" then Printf.fprintf oc "%s %s\n" c.id c.bad
-           else if List.exists (fun st -> List.exists (fun cs -> any_bad fuel true tbl c.conv cs st) ors) streams then Printf.fprintf oc "%s BAD\n" c.id
            else begin
+             let errs = List.concat_map (fun st -> List.map (fun cs -> n_to_int_nat (first_err fuel true tbl c.conv cs st)) ors) streams in
+             match List.find_opt (fun e -> e <> 0) errs with
+             | Some 1 -> Printf.fprintf oc "%s ERR not defined\n" c.id
+             | Some 2 -> Printf.fprintf oc "%s ERR already seen\n" c.id
+             | Some _ -> Printf.fprintf oc "%s MISSING\n" c.id
+             | None ->
              let a = ids (stream_selected fuel true tbl c.conv ors) in
              let b = ids (stream_spec fuel tbl c.conv ors) in
              if a = b then Printf.fprintf oc "%s OK %s\n" c.id a
